@@ -57,10 +57,10 @@ Cand(k) ==
     [] k = "len" -> IF Open THEN {Op("len", 0, 0)} ELSE {}
     [] k = "iter" -> IF Open THEN {Op("iter", 0, 0)} ELSE {}
     [] k = "getflight" -> {Op("getflight", i, 0) : i \in {j \in Ids : FileBacked}}
-    [] k = "addbad" -> {Op("addbad", r, 0) : r \in {q \in 1..4 : Writable
+    [] k = "addbad" -> {Op("addbad", r, 0) : r \in {q \in 1..5 : Writable
                           /\ (q \in {2, 4} => added # <<>>) /\ (q = 3 => indexable # "undecided")}}
     [] k = "addro" -> IF mode = "read" THEN {Op("addro", 0, 0)} ELSE {}
-KindName(q) == CASE q = 1 -> "missing_required" [] q = 2 -> "fieldset_mismatch" [] q = 3 -> "id_inconsistent" [] q = 4 -> "fieldset_redefined"
+KindName(q) == CASE q = 1 -> "missing_required" [] q = 2 -> "fieldset_mismatch" [] q = 3 -> "id_inconsistent" [] q = 4 -> "fieldset_redefined" [] q = 5 -> "missing_required_other"
 Do(d) ==
   CASE d.k = "add" -> Add(d.a, d.b)
     [] d.k = "get" -> Get(d.a)
